@@ -334,12 +334,11 @@ def jobs(tier):
     js = [Job("selftest", job_selftest, dict(seed=seed), "selftest", 180)]
     for K in (1, 2, 3) + ((4, 5) if tier == "thorough" else ()):
         js.append(Job(f"item-step/enc1/K{K}", job_item_step, dict(K=K, timeout_s=1500 if tier == "quick" else 3300), "feasible_packing", 1700 if tier == "quick" else 3500, weight=K))
-    nmax = 3 if tier == "quick" else 4
     for n in range(1, 4):
         for reps in P.compositions(n):
             js.append(Job(f"ctor-domain/reps{'-'.join(map(str, reps))}", job_ctor_domain, dict(reps=reps), "instance_domain", 600))
     for enc in (1, 2):
-        for n in range(1, nmax + 1):
+        for n in range(1, 4):
             for reps in P.compositions(n):
                 xs = list(P.signed_perms(reps))
                 if tier == "quick":
@@ -348,17 +347,23 @@ def jobs(tier):
                     if list(reps) != sorted(reps, reverse=True):
                         continue
                     xs = [x for x in xs if _canonical(x, reps)]
-                per = 4 if n <= 3 else 2
-                for ci, ch in enumerate(_chunks(xs, per)):
+                for ci, ch in enumerate(_chunks(xs, 4)):
                     js.append(Job(f"whole/enc{enc}/reps{'-'.join(map(str, reps))}/{ci}", job_whole,
-                                  dict(enc=enc, reps=reps, xs=ch, timeout_s=900 if n <= 3 else 3000), "feasible_packing",
-                                  1000 if n <= 3 else 3300, weight=n))
+                                  dict(enc=enc, reps=reps, xs=ch, timeout_s=1500), "feasible_packing", 1700, weight=n))
+        if tier == "thorough":
+            # four items: measured 440 s (encoding 1) / 1135 s (encoding 2) per permutation on one core, so only the
+            # all-distinct multiplicity vector, one ordering (rows are interchangeable) and selected sign patterns
+            signs = list(__import__("itertools").product((1, -1), repeat=4)) if enc == 1 else [(1, 1, 1, 1), (-1, -1, -1, -1), (1, -1, 1, -1), (-1, 1, 1, -1)]
+            for sg in signs:
+                x = [(k + 1) * sg[k] for k in range(4)]
+                js.append(Job(f"whole/enc{enc}/reps1-1-1-1/{''.join('+' if q > 0 else '-' for q in sg)}", job_whole,
+                              dict(enc=enc, reps=[1, 1, 1, 1], xs=[x], timeout_s=3300), "feasible_packing", 3500, weight=10))
     return js
 
 
 def meta(tier):
     return dict(
-        bounds=dict(items=f"<= {3 if tier == 'quick' else 4} items (every multiplicity vector, every signed permutation with repetition, enumerated)",
+        bounds=dict(items="<= 3 items: every multiplicity vector and signed permutation with repetition (quick: up to relabelling); thorough adds four distinct items for 16 (encoding 1) / 4 (encoding 2) sign patterns",
                     sizes="bin and item sizes fully symbolic in 1..10^12 (every storage class int8..int64 and its edges inside one query family)",
                     item_step="encoding 1: the extracted body of the item loop from an arbitrary feasible current bin with K <= 3 (thorough 5) boxes of arbitrary sizes: covers runs of any "
                               "length in which no bin receives more than K+1 items (loop induction)",
